@@ -1,4 +1,4 @@
-HOOK_COMMITS = ["e2d838b verif hook (cfg scrut_verif): virtual clock for the stateful executor"]
+HOOK_COMMITS = ["e2d838b verif hook (cfg scrut_verif): virtual clock for the stateful executor", "53255b4 verif hook: verif_clock::Instant covers the rest of std::time::Instant's API (so that changes using checked_duration_since/elapsed/- still compile under the guard)"]
 NOTES = "Model checking = bounded exhaustive exploration of the real code against reference models; see DESIGN.md. Exit 0 held / 1 violation / >=2 machinery failure."
 ENGINES = [
     {"name": "vc_cli", "path": "harness/src/engines/vc_cli.rs", "serves_properties": ["C15", "C18", "C20"],
